@@ -55,17 +55,34 @@ def gen_network(rng, kind):
     return out
 
 
-def build(species, rng):
+def build(species, rng, staged_file=None):
+    """`staged_file`: the network is assembled in two steps on one object, as an interactive session does - the reactions among the
+    first species through the constructor, then (after the species, the elements and the element abundances of that first part
+    have been looked at) the rest appended from a file in the native format written there"""
     from naunet.network import Network
     from naunet.reactions import Reaction
     from naunet.reactiontype import ReactionType as RT
     from .ode_checks import reset_species_state, DEFAULT_ELEMENTS, DEFAULT_PSEUDO
     reset_species_state()
     names = [s.name for s in species]
-    rs = [Reaction([names[i], names[(i + 3) % len(names)]], [names[(i + 1) % len(names)]], alpha=1e-10, reaction_type=RT.GAS_TWOBODY,
-                   idxfromfile=i + 1) for i in range(len(names))]
+    triples = [([names[i], names[(i + 3) % len(names)]], [names[(i + 1) % len(names)]]) for i in range(len(names))]
+    mk = lambda re_, pr_, i: Reaction(list(re_), list(pr_), alpha=1e-10, reaction_type=RT.GAS_TWOBODY, idxfromfile=i + 1)
+    if staged_file is None:
+        with silenced():
+            return Network([mk(re_, pr_, i) for i, (re_, pr_) in enumerate(triples)], elements=list(DEFAULT_ELEMENTS),
+                           pseudo_elements=list(DEFAULT_PSEUDO))
+    # first part: the reactions that involve the first atom's species only (e.g. H chemistry), or simply the first one
+    first_atom = names[0]
+    head = [k for k, (re_, pr_) in enumerate(triples) if all(x in (first_atom, first_atom + "2", first_atom + "+", "e-") for x in re_ + pr_)] or [0]
+    by_name = {s.name: s for s in species}
     with silenced():
-        return Network(rs, elements=list(DEFAULT_ELEMENTS), pseudo_elements=list(DEFAULT_PSEUDO))
+        net = Network([mk(*triples[k], k) for k in head], elements=list(DEFAULT_ELEMENTS), pseudo_elements=list(DEFAULT_PSEUDO))
+        _ = [s.name for s in net.species], [e.name for e in net.elements], net.info if hasattr(net, "info") else None
+        rest = [netgen.AReac([by_name[x] for x in triples[k][0]], [by_name[x] for x in triples[k][1]], idx=k + 1)
+                for k in range(len(triples)) if k not in head]
+        Path(staged_file).write_text("".join(netgen.native_line(r) + "\n" for r in rest))
+        net.add_reaction_from_file(str(staged_file), "naunet")
+    return net
 
 
 def parse_renorm(path, backend):
@@ -254,14 +271,17 @@ def run(argv):
     for n in range(nnets):
         kind = kinds[n % len(kinds)] if n >= 3 else ["grain", "nonatomic", "noelement"][n]   # the finding witnesses always first
         species = gen_network(rng, kind)
+        staged = kind == "plain" and (n == 3 or rng.random() < 0.3)
         try:
-            net = build(species, rng)
+            net = build(species, rng, staged_file=(chk.scratch / f"n{n}-rest.naunet") if staged else None)
         except Exception as e:
             chk.violation({"kind": "build-raised"}, f"building the network raised {e}", input=[s.name for s in species])
             continue
         truth = {s.alias if s.kind != "electron" else "eM": s for s in species}
-        show = {"kind": kind, "species": [s.name for s in species]}
+        show = {"kind": kind, "species": [s.name for s in species], "assembled": "constructor, then elements looked up, then "
+                "add_reaction_from_file" if staged else "constructor"}
         chk.hist[f"kind:{kind}"] += 1
+        chk.hist["staged" if staged else "one-step"] += 1
         for b in (["dense", "rosenbrock4"] if tier == "quick" else ["dense", "sparse", "rosenbrock4"]):
             path = chk.scratch / f"n{n}-{b}"
             try:
